@@ -294,9 +294,11 @@ CLAIMED = {
     ),
     'C11': dict(
         text='PoolScheduler._compute_fair_share verified on its real body for ALL inputs (any number of users, any non-negative running/ready cores, any free-core amount incl. zero and negative): loading loop, water-filling while loop and final loop under inductive invariants (users partitioned into pending / allocating / done; pending users at or above the level with nothing, allocating users span the level, done users have their whole demand below it; budget conservation free + |A|*mark - SUMR + TOTAL == free0 with ghost sums, nonlinear VCs by z3). '
-        'Postconditions: 0 <= allocation <= demand for every user; a user left short sits exactly at the common level or is above it with nothing; a user with its whole demand is at or below the level; nothing without free cores; total <= free + |A|/2; when a user is left short total >= free - |A|/2, and total == free exactly when the last level was not rounded.',
-        note=COMMON_NOTE + 'Assumed: the database iterator yields one row per user with non-negative integers; sortedcontainers.SortedSet (s[0] = member with least key; set operations; cardinality kept by the executor); float arithmetic as real arithmetic (int(x + 0.5) on the quotient free/n); ghost sums SUMR / TOTAL mirror the sums they stand for (two stated ghost assumptions, induction over set operations). The order of the returned dict is not covered. '
-        'Failing VCs of this contract come back unknown/timeout from z3; violations are then reported with a witness from the native search (real method, real sortedcontainers, exact rational water-filling reference). Thorough tier: 101 220 grid cases as a bounded cross-check.',
+        'Postconditions: 0 <= allocation <= demand for every user; a user left short sits exactly at the common level or is above it with nothing; a user with its whole demand is at or below the level; nothing without free cores; total <= free + |A|/2; when a user is left short total >= free - |A|/2, and total == free exactly when the last level was not rounded. '
+        'Surroundings under obligation (wave 4): the embedded query text (vc/sqlparse): reads user_inst_coll_resources with the pool name as its only argument; the row filter is EXACTLY inst_coll = this pool (z3, both directions - every token row of a user enters the sums, no row of another pool); GROUP BY user (one row per user, no LIMIT); every column the code reads is CAST(.. AS SIGNED) of the SUM of the same-named counter; users are filtered on aggregated sums only and a user left out has no ready demand (z3). '
+        'The key lambdas of the two SortedSets are read from the real text: the s[0] model orders by the real key, and for all dictionary contents the pending set is ordered by running cores and the allocating set by total cores (z3). Every container the computation writes (item stores, deletions, mutating method calls, also in its local function) hangs off a local bound to a freshly created object, and nothing is stored on self (AST frame obligations).',
+        note=COMMON_NOTE + 'Assumed: the database executes the (now checked) query as MySQL does - bare names in HAVING are the select aliases - and per user and pool the summed counters are non-negative with no ready cores without ready jobs (C01/C06); sortedcontainers.SortedSet (s[0] = member with least key under the key function passed; set operations; cardinality kept by the executor); float arithmetic as real arithmetic (int(x + 0.5) on the quotient free/n); ghost sums SUMR / TOTAL mirror the sums they stand for (two stated ghost assumptions, induction over set operations). The order of the returned dict is not covered. '
+        'Failing VCs of this contract come back unknown/timeout from z3; violations are then reported with a witness from the native search (real method, real sortedcontainers, exact rational water-filling reference). Thorough tier: 101 220 grid cases as a bounded cross-check. Failed obligations of the surroundings are accompanied by native replays where one exists: the real query text on sqlite over token rows with negative deltas (contracts/native/c11_query_replay.py), two overlapping computations on one scheduler object (c11_overlap_replay.py).',
         technique='inductive loop invariants with ghost sums on the real coroutine (finite sets as maps with cardinality, set iteration as an arbitrary enumeration), pyvc -> z3 (nonlinear integer/real arithmetic); native reference search as witness',
         design_ref='7/C11',
     ),
